@@ -116,7 +116,13 @@ func runC07(c *Ctx) {
 		cfg.Step = func(in ssa.Instruction, hit bool, _ *pathEnv, _ []ssa.CallInstruction) bool {
 			return hit || isPermOp(in)
 		}
-		cfg.Return = func(r *ssa.Return, hit bool, _ *pathEnv) {
+		cfg.Return = func(r *ssa.Return, hit bool, env *pathEnv) {
+			// a refusal (AddPermission reporting an error that is known not to be nil) installs nothing
+			if n := len(r.Results); n > 0 && isErrorType(r.Results[n-1].Type()) {
+				if known, isNil := env.knownNil(r.Results[n-1]); known && !isNil {
+					return
+				}
+			}
 			if !hit {
 				badPath = "the return at " + w.instrPos(r)
 			}
